@@ -90,7 +90,9 @@ def target_corpus(tier: str) -> List[Tuple[Dict[str, Any], str]]:
         for ti, t in enumerate(allt):
             variants = [("gen", False), ("coro", True)] if tier == "thorough" else [[("gen", False), ("coro", True)][(li + ti) % 2]]
             for kind, is_async in variants:
-                other = allt[(ti + 3) % len(allt)]
+                # a supported target is paired with a supported one, so that C01/C02/C20 (which leave the
+                # unsupported forms to C08) see every supported form in every layout
+                other = SUPPORTED_TARGETS[(ti + 3) % len(SUPPORTED_TARGETS)] if t in SUPPORTED_TARGETS else allt[(ti + 3) % len(allt)]
                 targets: List[Optional[str]] = [t, None, other] if (ti % 2 == 0) else [None, t]
                 try:
                     src = target_program(kind, is_async, layout, targets)
@@ -398,7 +400,8 @@ def run(rep: Any, tier: str, seed: int) -> None:
         return
     n = 16 if tier == "quick" else 48
     cs = chunks(tier, seed, n)
-    tc = target_corpus(tier)
+    # (c01.chunks already contains the supported part of the target corpus; add the unsupported forms here)
+    tc = [p for p in target_corpus(tier) if any((t or "") in UNSUPPORTED_TARGETS for t in p[0].get("targets", []))]
     for k, c in enumerate(cs):
         c["programs"] = c["programs"] + tc[k::len(cs)]
     jobs: List[Tuple[str, Any]] = [("_shard", c) for c in cs]
